@@ -562,6 +562,10 @@ def run_r6(ctx, yastn, rng, pid, key, count):
             B1, B2 = yastn.block({kA: fx, kB: fy}), yastn.block({kA: fy, kB: fx})
     except yastn.YastnError:
         count("views:R6:block-rejected"); return
+    except Exception as e:  # noqa: BLE001
+        ctx.fail("oracle", f"{key}:views:R6:raises", f"block() of hard-fused tensors on compatible legs (fusions {prog}, {'common legs' if common else 'all legs blocked'}) "
+                 f"raised {type(e).__name__}: {str(e)[:100]}", case=case, concrete=True)
+        return
     checks = [("<B1|B1> = <x|x> + <y|y>", lambda: yastn.vdot(B1, B1), lambda: yastn.vdot(x, x) + yastn.vdot(y, y)),
               ("<B1|B2> = <x|y> + <y|x>", lambda: yastn.vdot(B1, B2), lambda: yastn.vdot(x, y) + yastn.vdot(y, x)),
               ("|B1 + B2|^2 = 2 |x + y|^2", lambda: yastn.vdot(B1 + B2, B1 + B2), lambda: 2 * yastn.vdot(x + y, x + y))]
